@@ -90,7 +90,9 @@ def c03(ctx):
     q = ctx.quick
     mc_algebra(ctx, "codec", 2 if q else 3, "C03_mc")
     bh = gen_algebra(ctx, "codec", 3, "C03_gen_bfs")
-    ctx.run_vh("alg", ["-in", bh, "-codecall", "-adapters", "-bindings", 3 if q else 9, "-max", 2500 if q else 0, "-maxslow", 300 if q else 8000])
+    # many bindings with a small sample each: the number of DISTINCT concrete values per group is what
+    # finds encodings that are wrong for rare values only (e.g. a coordinate with a leading zero byte, 1 in 128)
+    ctx.run_vh("alg", ["-in", bh, "-codecall", "-adapters", "-bindings", 24 if q else 48, "-max", 330 if q else 4000, "-maxslow", 40 if q else 700])
     return ctx.finish("model_checking",
                       "behaviour = pool value, one arithmetic step leaving a (possibly non-normalised) result, then encode/decode of any register into any register through MarshalBinary / MarshalTo+UnmarshalFrom / hex helpers; checks: advertised length, identical bytes on all three paths, decode succeeds, re-encoding byte-identical to the canonical-route value, encoded register unchanged, Equal iff identical encodings",
                       ASSUME_LIFT, exhaustive=False)
